@@ -72,9 +72,9 @@ def model_runs(tier):
     if tier == "quick":
         return [("MC_Editing_quick_all.cfg", 4), ("MC_Editing_quick_content.cfg", 3), ("MC_Editing_quick_res.cfg", 3),
                 ("MC_Editing_quick_obj.cfg", 3), ("MC_Editing_quick_ins.cfg", 3)]
-    return [("MC_Editing_thorough_all.cfg", 6), ("MC_Editing_thorough_content.cfg", 3), ("MC_Editing_thorough_content2.cfg", 2),
-            ("MC_Editing_thorough_res.cfg", 3), ("MC_Editing_thorough_obj.cfg", 4), ("MC_Editing_thorough_starts.cfg", 4),
-            ("MC_Editing_thorough_ins.cfg", 4)]
+    return [("MC_Editing_thorough_all.cfg", 6), ("MC_Editing_thorough_content.cfg", 4), ("MC_Editing_thorough_content2.cfg", 2),
+            ("MC_Editing_thorough_res.cfg", 2), ("MC_Editing_thorough_obj.cfg", 3), ("MC_Editing_thorough_starts.cfg", 3),
+            ("MC_Editing_thorough_ins.cfg", 3), ("MC_Editing_thorough_ins4.cfg", 2)]
 
 
 def run_models(chk, tier):
